@@ -512,7 +512,7 @@ func init() {
 	core.Register(&core.Prop{
 		ID:    "C17",
 		Title: "Every operation returns normally and silently for every argument",
-		Cases: func(tier string) int { return tierN(tier, 37800, 1260000) },
+		Cases: func(tier string) int { return tierN(tier, 37800, 2520000) },
 		Run:   runC17,
 		Rule: "one container per case, cycling through all 21 kinds and element types, in a state reached by a random history (a third start empty); 20-120 calls chosen uniformly from ALL exported methods of the container's type as found by reflection, " +
 			"with arguments generated from the parameter types: hostile indices (MinInt, -1, 0, n/2, n-1, n, n+1, MaxInt, ...), domain and probe keys/elements, variadic lists of 0,1,2,3,17 values, hostile JSON for []byte, pure callbacks and valid comparators for func parameters, " +
